@@ -296,6 +296,8 @@ impl Prop for C02 {
     let l = lunlist();
     match t {
       "s2l" => {
+        // strided walks on fresh threads (see engine::stride_walks)
+        stride_walks(env, out, "s2l", env.tier.pick(1600, 48000) / nshards as u32, 7000 + shard as u64, 0, (crate::model::NDAYS as i64), 800, &|x| vec![x], &ev);
         let (lo, hi) = shard_range(NDAYS, shard, nshards);
         let mut rev = Reverse::new(30);
         for i in lo..hi {
@@ -336,6 +338,11 @@ impl Prop for C02 {
             let dc = LunarMonth::from_ym(y as isize, m as isize).get_day_count() as i64;
             run_case(env, out, "order", &Case::ints(&[y, m, dc, y2, m2, 1]), &ev);
             run_case(env, out, "order", &Case::ints(&[y2, m2, 1, y, m, dc]), &ev);
+          }
+          // a date against itself: neither before nor after
+          for d in [1i64, 15, 29] {
+            out.class("reflexive_pairs");
+            run_case(env, out, "order", &Case::ints(&[y, m, d, y, m, d]), &ev);
           }
           // leap twins
           if m < 0 {
